@@ -1,4 +1,4 @@
-\* quick: explored completely, 967,176 distinct states, ~14 s with 16 workers
+\* thorough: explored completely, 5.4 M distinct states, ~60 s
 SPECIFICATION Spec
 CONSTANTS
   Senders = {1, 2}
@@ -8,11 +8,11 @@ CONSTANTS
   Cap = 3
   Waits = {0, 2}
   Counts = {0, 1, 3}
-  MaxInd = 1
+  MaxInd = 2
   MaxBusy = 1
   MaxLost = 1
   FailBudget = 1
-  MaxNow = 6
+  MaxNow = 8
   EnableClose = TRUE
   Ctrls = {0, 1}
   Urgent = FALSE
